@@ -154,8 +154,11 @@ def build(job, scratch):
         if l["file"].startswith("<builtin") or "/cprover" in l["file"] or not l["file"]:
             continue
         if l["file"].startswith(REPO) and "lw_xor_block" in src_line(l["file"], l["line"]):
-            # lw_xor_block(dest, src, 32): do { while (_len > 0) ... } while (0) on one source line, constant length 32
-            unwindset.append("%s:33" % l["name"])
+            # lw_xor_block(dest, src, 32): do { while (_len > 0) ... } while (0) on one source line, constant length 32.
+            # Loops are numbered by their back edge: the inner while comes first (33 iterations), the do-while(0) last (1).
+            same = sorted([x for x in loops if x["file"] == l["file"] and x["line"] == l["line"] and x["function"] == l["function"]],
+                          key=lambda x: int(x["name"].rsplit(".", 1)[1]))
+            unwindset.append("%s:%d" % (l["name"], 1 if (len(same) > 1 and l is same[-1]) else 33))
             facts["macro_loops"] += 1
         elif l["file"].startswith(REPO) and is_macro_loop(l):
             unwindset.append("%s:1" % l["name"])
